@@ -264,7 +264,9 @@ var validPieces = []string{"=", ";", "|", "(", ")", "[", "]", "{", "}", "{{", "}
 
 var nearMisses = []string{"@lef", "@leftx", "@", "@Left", "$a", "$", "$1", `""`, `"abc`, `"a b"`, `"\`, "'x'", "/abc", "/ab\n/", "/* open", "/*/", "#", "%", "!", "\\", "^", "~", "`", ",", ".", ":", "?", "&", "+", "-", "*", "é", "\x0c", "\x01", "\x7f", "A", "_a", "9a", "a-b", "{{{", "}}}", "/*", "/", "\xff", "\xc3(", "ab\xfe", "\xe4\xb8",
 	// the NUL character (the end marker of the reader the scanner uses) and its control picture
-	"\x00", "a\x00", "\x00b", "\"a\x00\"", "// c \x00 d", "/* \x00 */", "\u2400", "x\x00\x00"}
+	"\x00", "a\x00", "\x00b", "\"a\x00\"", "// c \x00 d", "/* \x00 */", "\u2400", "x\x00\x00",
+	// characters beyond U+00FF whose low byte is a character of the language
+	"\u0120", "\u013b", "\u013d", "\u0122x\u0122", "\u012fa\u012f", "\u017b", "a\u0161", "\u0141B", "\u0130", "\u015f", "\u2120", "\U0001003d", "\u010a", "x\u0109y", "\u0140left"}
 
 var separators = []string{" ", "  ", "\t", "\n", "\r\n", "\n\n", " \t ", "\r", ""}
 
